@@ -130,6 +130,55 @@ json.dump(out, sys.stdout)
 '''
 
 
+PAIR = r'''
+import sys, os, json, pickle
+sys.path.insert(0, os.environ['VERIF_HARNESS']); sys.path.insert(0, os.environ['VERIF_REPO'])
+import concepts
+import corpus
+from rec_persist_worker import observe, digest, cached, LatHolder
+role, d = sys.argv[1], sys.argv[2]
+specs = [(3, 3, 0), (2, 4, 1), (4, 2, 2), (3, 3, 0), (5, 5, 1), (2, 2, 2)]
+def table(k, n, m, flip):
+    return [tuple(((i * 3 + j * 5 + k) % 3 == 0) != flip for j in range(m)) for i in range(n)]
+if role == 'producer':
+    # the first contexts this interpreter ever creates
+    for k, (n, m, v) in enumerate(specs):
+        o, p = corpus.labels_for(n, m, v)
+        c = concepts.Context(o, p, table(k, n, m, False))
+        pickle.dump(c, open(os.path.join(d, f'c{k}.pkl'), 'wb'))
+        pickle.dump(c.lattice, open(os.path.join(d, f'l{k}.pkl'), 'wb'))
+    print('[]')
+else:
+    own = []
+    for k, (n, m, v) in enumerate(specs):       # same labels, same creation order, DIFFERENT tables
+        o, p = corpus.labels_for(n, m, v)
+        c = concepts.Context(o, p, table(k, n, m, True))
+        own.append((c, digest(observe(c))))
+    loaded = []
+    for k in range(len(specs)):
+        loaded.append((pickle.load(open(os.path.join(d, f'c{k}.pkl'), 'rb')), pickle.load(open(os.path.join(d, f'l{k}.pkl'), 'rb'))))
+    out = []
+    for k, (n, m, v) in enumerate(specs):
+        o, p = corpus.labels_for(n, m, v)
+        fresh = digest(observe(concepts.Context(o, p, table(k, n, m, False))))
+        c, l = loaded[k]
+        for what, x in (('ctx', c), ('lat', LatHolder(l))):
+            try:
+                out.append({'k': k, 'what': what, 'out': 'ok', 'obs': digest(observe(x)), 'fresh': fresh,
+                            'eq': True, 'cached': cached(c) if what == 'ctx' else False})
+            except Exception as exc:
+                out.append({'k': k, 'what': what, 'out': type(exc).__name__})
+    for k, (c, before) in enumerate(own):
+        c2 = concepts.Context(c.objects, c.properties, c.bools)
+        try:
+            out.append({'k': k, 'what': 'own', 'out': 'ok', 'obs': digest(observe(c2)) and digest(observe(c)),
+                        'fresh': before, 'eq': True, 'cached': False})
+        except Exception as exc:
+            out.append({'k': k, 'what': 'own', 'out': type(exc).__name__})
+    print(json.dumps(out))
+'''
+
+
 class LatHolder:
     def __init__(self, lat):
         c = lat._context
@@ -268,6 +317,28 @@ class Rec:
         self.child_jobs.append({'id': len(self.child_jobs), 'b': self.b, 'h': h, 'what': what, 'path': path,
                                 'objects': list(ctx.objects), 'properties': list(ctx.properties),
                                 'bools': [list(r) for r in ctx.bools], 'concepts': self.nconcepts(ctx)})
+
+    def fresh_pair(self, b):
+        """Two FRESH interpreters: the producer pickles the first contexts it ever creates; the consumer first
+        creates contexts with the same labels (other tables) in the same order, then loads the pickles."""
+        d = tempfile.mkdtemp(prefix='pair-', dir=self.tmp)
+        script = os.path.join(d, 'pair.py')
+        with open(script, 'w') as f:
+            f.write(PAIR)
+        self.b = b
+        res = None
+        for role, hs in (('producer', '17'), ('consumer', '4242')):
+            env = dict(os.environ, PYTHONHASHSEED=hs, VERIF_HARNESS=os.path.dirname(os.path.abspath(__file__)),
+                       VERIF_REPO=os.environ.get('VERIF_REPO', '/repo'))
+            p = subprocess.run([sys.executable, script, role, d], env=env, capture_output=True, text=True)
+            if p.returncode != 0:
+                self.ev('p.pickle', what='ctx', where='fresh-pair:' + role, h=0, out='ProcessFailed', concepts=-1,
+                        msg=p.stderr[-300:])
+                return
+            res = json.loads(p.stdout.strip().splitlines()[-1])
+        for r in res:
+            f = {k: r[k] for k in ('eq', 'cached', 'obs', 'fresh') if k in r}
+            self.ev('p.pickle', what=r['what'], where='fresh-pair', h=r['k'], out=r['out'], concepts=-1, **f)
 
     def run_children(self, seeds):
         if not self.child_jobs:
@@ -467,6 +538,8 @@ def main():
             stats['nontrivial'] += 0 < ncross < t.n * t.m
             if len(stats['samples']) < 1 and ncross:
                 stats['samples'].append({'b': b, 'n': t.n, 'm': t.m, 'rows': t.rows, 'tag': t.tag})
+        if a.shard == 0 and a.only is None:
+            rec.fresh_pair(len(tables))
         stats['child_pickles'] = len(rec.child_jobs)
         stats['max_concepts'] = max([j['concepts'] for j in rec.child_jobs] or [0])
         rec.run_children([1, 12345] if a.tier == 'quick' else [1, 2, 12345, 987654321])
